@@ -12,13 +12,14 @@ import nfc.llcp.pdu as pdu
 
 
 class PeerModel(object):
-    def __init__(self, services=None, names=None, script=None, miu=128, rw=1, echo=False):
+    def __init__(self, services=None, names=None, script=None, miu=128, rw=1, echo=False, answer_snl=True):
         self.services = set(services or [20])             # remote SAPs that accept connections
         self.names = dict(names or {b"urn:nfc:sn:svc": 20})
         self.script = dict(script or {})                  # exchange index -> list of PDUs to send
         self.out = collections.deque()
         self.conn = {}                                    # (remote sap, dut sap) -> dict(vr, vs)
         self.miu, self.rw, self.echo = miu, rw, echo
+        self.answer_snl = answer_snl                      # False: service name lookups are never answered
         self.seen = []
 
     def _one(self, p):
@@ -47,7 +48,7 @@ class PeerModel(object):
         elif n == "DISC":
             self.conn.pop((p.dsap, p.ssap), None)
             self.out.append(pdu.DisconnectedMode(p.ssap, p.dsap, 0))
-        elif n == "SNL":
+        elif n == "SNL" and self.answer_snl:
             res = [(tid, self.names.get(bytes(name), 0)) for tid, name in p.sdreq]
             if res:
                 self.out.append(pdu.ServiceNameLookup(1, 1, sdres=res))
